@@ -448,6 +448,11 @@ func run(tapeJSON json.RawMessage, res *core.Result) {
 			if rq.TGTCipher != nil && refkdc.FindIssue(issues, rq.TGTCipher) == nil {
 				viol("tgsreq.tgt-not-in-log", d)
 			}
+			// only the realm that issued a ticket can renew it
+			if rq.Renew && rq.HdrRealm != "" && rq.HdrRealm != rq.Realm {
+				d["ticket"], d["issued_by"], d["sent_to"] = rq.HdrSName, rq.HdrRealm, rq.Realm
+				viol("tgsreq.renew-sent-to-non-issuer", d)
+			}
 			for _, n := range rq.Notes {
 				switch {
 				case strings.Contains(n, "checksum over KDC-REQ-BODY"):
